@@ -92,7 +92,7 @@ PROPS["C05"] = dict(
 
 PROPS["C06"] = dict(
     pkg="exec", test="TestC06", engine="exec", own_loop=True,
-    quick=dict(checks=450, shards=3), thorough=dict(checks=32000, shards=16),
+    quick=dict(checks=1800, shards=3), thorough=dict(checks=32000, shards=16),
     nt_floor=dict(quick=1500, thorough=80000),
     must_classes=["fault-kind=err", "fault-kind=group", "fault-kind=ext", "fault-kind=nth", "fault-kind=coerce", "faults>=2",
                   "failure-inside-list", "failure-with-named-fragment-in-play"],
